@@ -56,6 +56,12 @@ impl GC {
         }
     }
 
+    /// The raw words of the objects currently managed, in the collector's own order
+    #[cfg(feature = "verif")]
+    pub fn verif_objects(&self) -> Vec<usize> {
+        self.objects.iter().map(|o| o.verif_raw()).collect()
+    }
+
     /// Sweeps all objects
     /// This is automatically called once the Garbage Collector is dropped
     pub fn destroy(&mut self) {
@@ -70,6 +76,9 @@ impl GC {
             return;
         }
 
+        #[cfg(feature = "verif")]
+        let before: Vec<usize> = self.objects.iter().map(|o| o.verif_raw()).collect();
+
         self.mark_bitmap.clear();
 
         // Mark all reachable objects
@@ -81,6 +90,9 @@ impl GC {
 
         // Sweep all unreachable objects
         self.sweep();
+
+        #[cfg(feature = "verif")]
+        crate::verif::gc_run_done(roots, &before, &self.objects);
     }
 
     /// Sweep all unmarked objects
